@@ -24,14 +24,16 @@ Definition value_out (cl long : bool) (pr : prices) (ir : inc_report) (dr : dec_
   else
     in_coll_token * pmin cp + (dr_secondary dr + dr_user_sec dr + in_other_token) * pmax (coll_price pr long).
 
-(* rounding allowance: one base unit of each token per operation *)
-Definition slack (cl : bool) (pr : prices) : Z := 2 * pmax (coll_price pr cl) + 2 * pmax (coll_price pr (negb cl)).
+(* rounding allowance (the bound proved in C10/RoundTrip.v): four base units of the pnl token, one per payment
+   of the collateral waterfall that may convert a remainder into pnl tokens, plus one USD unit for the two
+   roundings of the impact value *)
+Definition slack (long : bool) (pr : prices) : Z := 4 * pmin (coll_price pr long) + 1.
 
 Definition round_trip_ok (before : world) (x1 x2 : op * outcome * aux) : bool :=
   match x1, x2 with
   | (OpInc i pr1 ci _ _, OutInc (Ok (p1, _, ir)), _), (OpDec j pr2 _ _ _ _, OutDec (Ok (_, _, dr)), _) =>
       if Nat.eqb i j && prices_eqb pr1 pr2 && dr_remove dr && (size_usd (get_pos (snd before) i) =? 0) then
-        value_out (coll_long p1) (is_long p1) pr1 ir dr <=? ci * pmin (coll_price pr1 (coll_long p1)) + slack (coll_long p1) pr1
+        value_out (coll_long p1) (is_long p1) pr1 ir dr <=? ci * pmin (coll_price pr1 (coll_long p1)) + slack (is_long p1) pr1
       else true
   | _, _ => true
   end.
